@@ -22,29 +22,7 @@ impl C03Monitor {
     /// (or after best-effort revocation when it leaves), so a certificate
     /// for a dropped key shows a revocation that had no effect.
     fn dropped_key_check(w: &World, obs: &oracle::Observation) -> Vec<Issue> {
-        let mut owners: BTreeMap<String, String> = BTreeMap::new();
-        for ca in w.ca_handles() {
-            let r = key_roles(w, &ca);
-            for k in r.active.iter().chain(r.new.iter()).chain(r.old.iter())
-                .chain(r.pending.iter())
-            {
-                owners.insert(k.clone(), ca.clone());
-            }
-        }
-        let mut issues = vec![];
-        for p in &obs.view.cas {
-            for (uri, ski, _res) in &p.child_certs {
-                if !owners.contains_key(ski) {
-                    issues.push((
-                        "published-cert-for-dropped-key".into(),
-                        format!("{uri}: subject key {ski} is no longer a \
-                                 key of any CA, but the certificate is \
-                                 still published and valid"),
-                    ));
-                }
-            }
-        }
-        issues
+        oracle::dropped_key_issues(w, obs)
     }
 }
 
@@ -164,7 +142,7 @@ fn boundary_script(which: u64) -> (Vec<Op>, bool) {
         add: add.iter().map(|s| s.to_string()).collect(),
         remove: rem.iter().map(|s| s.to_string()).collect(),
     };
-    match which % 4 {
+    match which % 5 {
         // mapped class name; the child rolls its key (revocation request
         // under the name the child was told)
         0 => (vec![
@@ -173,7 +151,10 @@ fn boundary_script(which: u64) -> (Vec<Op>, bool) {
                 v6: "".into(), name_in_parent: "0".into(),
                 name_for_child: "foo".into() },
             Op::Quiesce, Op::SyncAll, Op::Quiesce,
-            roa("kid", &["10.2.0.0/24 => 65001"], &[]), Op::Quiesce,
+            roa("kid", &["10.2.0.0/24 => 65001", "10.2.1.0/24 => 65001"], &[]),
+            Op::Quiesce,
+            // something revoked under the key that is about to be retired
+            roa("kid", &[], &["10.2.1.0/24-24 => 65001"]), Op::Quiesce,
             Op::RollInit { ca: "kid".into() }, Op::Quiesce,
             Op::SyncAll, Op::Quiesce,
             Op::RollActivate { ca: "kid".into() }, Op::Quiesce,
@@ -199,6 +180,12 @@ fn boundary_script(which: u64) -> (Vec<Op>, bool) {
             Op::AspaUpdate { ca: "leaf".into(), add: vec![],
                 remove: vec![65000] },
             Op::Quiesce,
+            // ... and then the key all that was revoked under is retired:
+            // its CRL must keep the serials while it is published
+            Op::RollInit { ca: "leaf".into() }, Op::Quiesce,
+            Op::SyncAll, Op::Quiesce,
+            Op::RollActivate { ca: "leaf".into() }, Op::Quiesce,
+            Op::SyncAll, Op::Quiesce,
         ], true),
         // suspend, resource loss, child removal, CA with children deleted
         2 => (vec![
@@ -213,6 +200,9 @@ fn boundary_script(which: u64) -> (Vec<Op>, bool) {
             Op::DeleteCa { ca: "mid".into() }, Op::Quiesce,
             Op::SyncAll, Op::Quiesce,
         ], true),
+        // three classes under one parent, two of them lost at once: both
+        // revocations must reach the parent
+        4 => (oracle::three_classes_script(), false),
         // one of two parents removed; router keys
         _ => (vec![
             roa("c2", &["10.2.0.0/24 => 65004", "172.16.0.0/16 => 65010"], &[]),
@@ -233,8 +223,8 @@ fn run_history(
     replay_chain: Option<bool>, replay_steps: Option<Vec<Option<String>>>,
 ) -> bool {
     let mut rng = Rng::new(seed);
-    let boundary = if idx < 4 { Some(idx) }
-        else if rng.chance(1, 3) { Some(rng.below(4)) } else { None };
+    let boundary = if idx < 5 { Some(idx) }
+        else if rng.chance(1, 3) { Some(rng.below(5)) } else { None };
     let (bscript, chain) = match boundary {
         Some(b) => boundary_script(b),
         None => (vec![], rng.chance(1, 2)),
@@ -278,8 +268,8 @@ fn main() {
     }
     let mut idx = 0u64;
     loop {
-        let hist_idx = if idx == 0 && args.shard < 4 { args.shard }
-            else { 4 + idx };
+        let hist_idx = if idx == 0 && args.shard < 5 { args.shard }
+            else { 5 + idx };
         let seed = args.shard_seed().wrapping_mul(7919).wrapping_add(hist_idx);
         run_history(&mut r, &args, hist_idx, seed, None, None, None);
         idx += 1;
